@@ -14,8 +14,13 @@ Model for C20 (after USE keyspace succeeds, all requests run on connections in t
                  `used_keyspace` the use-keyspace arm has updated), `cluster/node.rs:285-293`.
 
 The refiller is a single task: every `select!` arm runs to completion, so one arm = one atomic `step`.
-The tasks spawned by `PoolRefiller::use_keyspace` run concurrently with it; each of their `USE` exchanges
-is one event (`taskUse`).  The server side of a connection (`serverKs`, `acked`) is part of the state.
+The tasks spawned by `PoolRefiller::use_keyspace` run concurrently with it: writing the `USE` on a snapshot
+connection (`taskSubmit`) and the node answering the oldest statement in flight on a connection (`serve`) are
+separate events. Every connection carries its queue of `USE` statements in flight; the abstract server executes
+the requests of one connection in order (`serve` pops the head), a timed-out task leaves what it wrote in
+flight. A user statement `USE x` sent through `Session::query*` is the event `userUse`. The server side of a
+connection (`serverKs`, `acked`, `queue`) is part of the state. The ghost `overlap` is re-evaluated at every
+request (newest request arrived while an older one was unanswered), so it recovers after an overlap has drained.
 Import-free (core only).
 -/
 namespace ScyllaVerif.Keyspace
